@@ -150,15 +150,53 @@ def check_bookkeeping(ctx, db):
             ctx.check(args == ['width', 'offset'], 'R-SHAPE', label + '/fill-args', fills[0].loc(), 'forwards the caller\'s width and offset arrays in that order', 'forwards %s' % args)
     ctx.require('FlexPath builders', builders, 17)
     ctx.require('R-PAIRCALL obligations', n, 21)
-    # fill_offsets_and_widths
+    # fill_offsets_and_widths, interpreted (sa/minieval, exact rationals) on paths of 1 to 3 elements whose spine gained 0, 1, 2 or 4 points,
+    # with and without width / offset lists: every element receives exactly the missing entries, interpolated linearly from its last
+    # entry to (width / 2, offset) of ITS OWN list position (a missing list keeps the current value)
+    from .. import minieval as M
+    from fractions import Fraction
     f = db.fn('gdstk::FlexPath::fill_offsets_and_widths')
     ctx.touch(f)
-    t = norm(clone.canon(f.body, f, ren=clone.Renamer(f, params_by_name=True)))
-    ok = 'const uint64_t v0 = (this->spine.point_array.count - this->elements[0].half_width_and_offset.count)' in t
-    ok = ok and re.search(r'for \(uint64_t v1 = 0; \(v1 < this->num_elements\); \(v1\+\+\)\)', t) is not None
-    ok = ok and re.search(r'for \(uint64_t v\d+ = 1; \(v\d+ <= v0\); \(v\d+\+\+\)\)\n\s+v\d+->append_unsafe\(', t) is not None
-    ok = ok and '((0.5 * (*($width++))) - v3.u)' in t and '((*($offset++)) - v3.v)' in t
+    problems = []
+    runs = 0
+    for nel in (1, 2, 3):
+        for gained in (0, 1, 2, 4):
+            for has_w in (0, 1):
+                for has_o in (0, 1):
+                    runs += 1
+                    have = 2
+                    els = []
+                    for k_ in range(nel):
+                        lst = [M.Obj(x=Fraction(1 + k_), y=Fraction(-2 * k_)), M.Obj(x=Fraction(3 + k_, 2), y=Fraction(5 - k_))]
+                        els.append(M.Obj(half_width_and_offset=M.Obj(items=M.Ptr(lst, 0), count=have, capacity=have)))
+                    this = M.Obj(spine=M.Obj(point_array=M.Obj(count=have + gained, items=0, capacity=0)), elements=M.Ptr(els, 0), num_elements=nel)
+                    W, Of = [Fraction(7 + 2 * k_) for k_ in range(nel)], [Fraction(-3 + 5 * k_, 2) for k_ in range(nel)]
+                    ref = [None]
+                    mi = M.Mini(db, hook=M.array_hook(ref), budget=50000)
+                    mi.obj_store = True
+                    ref[0] = mi
+                    env = {'this': this, f.params[0]['n']: M.Ptr(list(W), 0) if has_w else 0, f.params[1]['n']: M.Ptr(list(Of), 0) if has_o else 0}
+                    try:
+                        mi.run(f.body, env)
+                    except M.Return:
+                        pass
+                    except M.OutOfBounds as ex:
+                        problems.append('%d elements, %d new points: %s' % (nel, gained, ex))
+                        continue
+                    for k_ in range(nel):
+                        arr = els[k_]['half_width_and_offset']
+                        it = arr['items']
+                        got = [(it.arr[it.i + j_].get('x'), it.arr[it.i + j_].get('y')) for j_ in range(arr.get('count', 0))]
+                        i0 = (Fraction(3 + k_, 2), Fraction(5 - k_))
+                        dw = (W[k_] / 2 - i0[0]) if has_w else 0
+                        do = (Of[k_] - i0[1]) if has_o else 0
+                        want = [(Fraction(1 + k_), Fraction(-2 * k_)), i0] + [(i0[0] + dw * Fraction(i_, gained), i0[1] + do * Fraction(i_, gained)) for i_ in range(1, gained + 1)]
+                        if got != want and len(problems) < 3:
+                            problems.append('element %d of %d, %d new spine points, width list %s, offset list %s: entries %s, expected %s' % (k_, nel, gained, 'given' if has_w else 'NULL', 'given' if has_o else 'NULL', [(str(a_), str(b_)) for a_, b_ in got], [(str(a_), str(b_)) for a_, b_ in want]))
+    ctx.explored['valuations'] += runs
+    ok = not problems
     ctx.check(ok, 'R-PAIRCALL', 'fill_offsets_and_widths/count', f.loc(), 'every element receives exactly spine.count - elements[0].count new entries, interpolated from its last entry to (width/2, offset)',
+              '; '.join(problems[:2]) or
               'fill_offsets_and_widths shape differs from the confirmed one (count / element loop / half width)')
     # remove_overlapping_points
     f = db.fn('gdstk::FlexPath::remove_overlapping_points')
